@@ -171,6 +171,10 @@ class Driver:
                 self.host.on_packet(bytes(ev))
             else:
                 self.q.flush(h)
+        elif kind == 'disc_failed':
+            # the controller reports that a disconnection FAILED: the connection lives on, nothing is discarded
+            ev = self.hci.HCI_Disconnection_Complete_Event(status=0x0C, connection_handle=op[1], reason=0x13)
+            self.host.on_packet(bytes(ev))
         elif kind == 'drain':
             h = op[1]
             t = self.loop.create_task(self.q.drain(h))
@@ -285,6 +289,8 @@ def ops_for(drv, handles):
                     out.append(('done', 1, h, shape))
     for h in handles:
         out.append(('flush', h))
+    if drv.via_host:
+        out.append(('disc_failed', handles[0]))
     for h in handles:
         if sum(1 for hh, _ in drv.drains if hh == h) < 1:
             out.append(('drain', h))
